@@ -15,6 +15,8 @@ Lines:
   `backbone <a>` `head <a>` `lrs <a>`
   `data <asIs|fixed> <args>` `model <args>` `modelraw <args>` `trainer <args>`
   `mk <Class> <kwargs>`           attrs constructor + validators
+  `which <name|value> <Class> <kwargs> <assignments>`   construct, assign attributes in order (a node whose
+                                  entries may repeat a key), then which_oneof_attrib_name() / which_oneof()
   `verify <cfg>`                  verify_training_cfg (schema = env TrainingJobConfig)
   `merge <s> <c>`
 Answers: `ok <tree>` | `raise <ExceptionClass>` | `bad-op`.
@@ -136,6 +138,10 @@ def step (s : St) (line : String) : St × String :=
   | "mk" :: c :: rest =>
     match runP pCfg rest with
     | some a => (s, out (mk s.env c (argsOf a)))
+    | none => (s, "bad-op")
+  | "which" :: mode :: c :: rest =>
+    match runP (do let kw ← pCfg; let asg ← pCfg; pure (kw, asg)) rest with
+    | some (kw, asg) => (s, out (oneofAfter s.env c (argsOf kw) (argsOf asg) (mode == "value")))
     | none => (s, "bad-op")
   | "verify" :: rest =>
     match runP pCfg rest with
